@@ -456,4 +456,15 @@ LEGS = [
              "service); non-trivial = "
              "at least two operations of the history sent write commands; "
              "distinct by case hash."),
+    Leg("history-sectors", run=run_history,
+        gen=lambda tier: tc.sector_hist(), quick=1600, thorough=24000,
+        shards_quick=8, shards_thorough=16, nt_floor=0.1,
+        rule="histories as in leg history on Type 2 Tags of more than one "
+             "sector (layouts of t2t-sectors: data area ending around 1 / 2 "
+             "KiB, control TLVs near the sector boundaries): 2..5 operations, "
+             "mostly assignments long enough to reach beyond the first "
+             "sector, with faults anywhere in an operation - communication "
+             "faults or the tag itself refusing a command (NAK, halted "
+             "afterwards; the refused command executes nothing); same judge; "
+             "non-trivial as in history."),
 ]
